@@ -163,6 +163,50 @@ def strat_shard(tier):
   return s()
 
 
+def run_offset_chain(case):
+  """Shards of shards where every level may have been restored at an offset: elements, len and recorded state."""
+  kind, n = case['kind'], case['n']
+  root = _guard(lambda: _make_source(kind, n, case.get('splits', [])), 'building source')
+  s, name = root, 'root'
+  for i, k, off in case['chain']:
+    plain = _guard(lambda: _elements(s.shard(i, k)), f'{name}.shard({i},{k})')
+    off = min(off, len(plain))
+    nxt = _guard(lambda: s.shard(i, k, off), f'{name}.shard({i},{k},{off})')
+    name = f'{name}.shard({i},{k},{off})'
+    got = _guard(lambda: _elements(nxt), f'iterating {name}')
+    check(got == plain[off:], 'offset-differs', f'{name} yields {got}, want {plain[off:]}')
+    check(len(nxt) == len(got), 'wrong-len', f'len({name}) = {len(nxt)} but it yields {got}')
+    s = nxt
+  want = _elements(s)
+  state = pickle.loads(pickle.dumps(s.state)) if case.get('pickle') else s.state
+  for who, src in (('the shard', s), ('the root source', root)):
+    rebuilt = _guard(lambda: _elements(src.from_state(state)), f'{who}.from_state({state})')
+    check(rebuilt == want, 'state-rebuild-differs', f'{name} yields {want}, {who}.from_state({state}) yields {rebuilt}')
+  # a restored iterator continues: iterate p elements, take the state, rebuild, the rest must follow
+  p = min(case.get('consume', 0), len(want))
+  it = iter(s)
+  head = [int(next(it)) for _ in range(p)]
+  rest = _guard(lambda: [int(x) for x in it.from_state(it.state)], f'{name}: iterator.from_state after {p} elements')
+  check(head + rest == want, 'iterator-state-rebuild-differs', f'{name}: {head} + {rest} != {want}')
+  nt = len(case['chain']) >= 2 or any(o for _, _, o in case['chain'])
+  return {'nontrivial': nt, 'classes': [f'kind-{kind}', f'offset-chain-{len(case["chain"])}']}
+
+
+def strat_offset_chain(tier):
+  @st.composite
+  def s(draw):
+    n = draw(st.one_of(st.integers(0, 30), st.integers(60, 200)))
+    depth = draw(st.integers(1, 4))
+    chain = []
+    for _ in range(depth):
+      k = draw(st.integers(1, 4))
+      chain.append([draw(st.integers(0, k - 1)), k, draw(st.sampled_from([0, 0, 1, 2, 5]))])
+    return {'kind': draw(st.sampled_from(['seq', 'multi', 'seq_array'])), 'n': n, 'chain': chain,
+            'splits': sorted(draw(st.lists(st.integers(0, n), max_size=3))), 'pickle': draw(st.booleans()),
+            'consume': draw(st.integers(0, 5))}
+  return s()
+
+
 # --------------------------------------------------------------------------- merged sequences
 def _container(kind, vals):
   if kind == 'list':
@@ -264,6 +308,8 @@ SCENARIOS = [
              shards={'quick': 6, 'thorough': 16}),
     Scenario('shard_hyp', run_shard, strategy=strat_shard, budget={'quick': 600, 'thorough': 8000},
              shards={'quick': 3, 'thorough': 16}),
+    Scenario('offset_chain', run_offset_chain, strategy=strat_offset_chain, budget={'quick': 1500, 'thorough': 20000},
+             shards={'quick': 2, 'thorough': 16}),
     Scenario('merged_exhaustive', run_merged, enumerate=enum_merged, budget={'quick': 1, 'thorough': 1},
              shards={'quick': 5, 'thorough': 16}),
     Scenario('merged_hyp', run_merged, strategy=strat_merged, budget={'quick': 1500, 'thorough': 20000},
